@@ -17,9 +17,10 @@ class RefRuntimeError(Exception):
 
 
 class RefParserError(Exception):
-    def __init__(self, location):
+    def __init__(self, location, in_call=False):
         super().__init__(location)
         self.location = location
+        self.in_call = in_call      # raised while a function call expression was being evaluated
 
 
 class HostFailure(Exception):
@@ -242,7 +243,7 @@ def _lib_system_fetch(vm, args):
     if len(args) != 1 or not isinstance(args[0], str):
         raise HostFailure('RefUnsupported', 'systemFetch form')
     url = vm.resolve(args[0], False)
-    text = vm.env.fetch(url, vm) if vm.has_fetch else None
+    text = vm.fetch(url)
     if text is None and vm.debug and vm.has_log:
         vm.env.log(f'BareScript: Function "systemFetch" failed for resource "{url}"', vm)
     return text
@@ -344,6 +345,17 @@ class RefVM:
             return url
         return _resolve.ref_resolve(self.base[1], url)
 
+    def fetch(self, location):
+        """A location that cannot be fetched (no fetch function, it raises, it answers nothing)."""
+        if not self.has_fetch:
+            return None
+        try:
+            return self.env.fetch(location, self)
+        except HostFailure as hf:
+            if hf.exc_name == 'RefUnsupported':
+                raise
+            return None
+
     # -- statements ----------------------------------------------------------------------------
     def run_list(self, statements, locs):
         ix = 0
@@ -392,12 +404,12 @@ class RefVM:
 
     def include(self, inc):
         location = self.resolve(inc['url'], bool(inc.get('system')))
-        text = self.env.fetch(location, self) if self.has_fetch else None
+        text = self.fetch(location)
         if text is None:
             raise RefRuntimeError(f'Include of "{location}" failed')
         parsed = self.env.parsed_for(location, text)
         if parsed is None:
-            raise RefParserError(location)
+            raise RefParserError(location, self.depth > 0)
         saved = self.base
         self.base = ('file', location)
         try:
@@ -464,6 +476,7 @@ class RefVM:
                 fn = self.globals.get(name)
             if fn is None:
                 raise RefRuntimeError(f'Undefined function "{name}"')
+            self.depth += 1
             try:
                 if args is None:
                     raise HostFailure('TypeError', 'no args')
@@ -474,4 +487,6 @@ class RefVM:
                 if self.debug and self.has_log:
                     self.env.log(f'BareScript: Function "{name}" failed with error: {hf.message}', self)
                 return hf.return_value
+            finally:
+                self.depth -= 1
         raise AssertionError(key)
